@@ -394,8 +394,27 @@ class Gen:
         d = self.depth
         ind = lambda ls: ['    ' + l for l in ls]     # noqa: E731
         x = r.random()
-        if depth > 0 and budget > 1 and x < 0.3:
-            if r.random() < 0.5:
+        if depth > 0 and budget > 1 and x < 0.38:
+            y = r.random()
+            if y < 0.25:
+                self.feats.add('try')
+                b1, _, _ = self.block(budget - 1, ints, seqs, depth - 1, in_loop)
+                out = ['try:'] + ind(b1)
+                shape = r.random()
+                if shape < 0.75:
+                    b2, _, _ = self.block(max(1, budget // 2), ints, seqs, depth - 1, in_loop)
+                    out += ['except %s:' % r.choice(['Err', 'Err', 'Exception', ''])] + ind(b2)
+                    out[-len(b2) - 1] = out[-len(b2) - 1].replace('except :', 'except:')
+                    if r.random() < 0.25:
+                        b3, _, _ = self.block(1, ints, seqs, 0, in_loop)
+                        out += ['else:'] + ind(b3)
+                if shape >= 0.75 or r.random() < 0.3:
+                    b4, _, _ = self.block(1, ints, seqs, 0, False)
+                    b4 = [(l[:len(l) - len(l.lstrip())] + 'pass') if l.strip().startswith(('return', 'break', 'continue')) else l
+                          for l in b4] or ['pass']
+                    out += ['finally:'] + ind(b4)
+                return out, ints, seqs, False
+            if y < 0.62:
                 self.feats.add('if')
                 b1, i1, s1 = self.block(budget - 1, ints, seqs, depth - 1, in_loop)
                 out = ['if %s:' % self.int_expr(d, ints, seqs)] + ind(b1)
